@@ -427,12 +427,12 @@ PROPS["C19"] = {
 # ------------------------------------------------------------------------------------------------ C01
 def _c01():
     L = [
-        leg("deque-basic", "c01_deque", (3, 4), {"owner": "SSGSGG", "thieves": 1, "steals": 2}, what="owner spawn/pop vs one thief"),
-        leg("deque-tie", "c01_deque", (3, 4), {"owner": "SG", "thieves": 2, "steals": 1}, what="one task: owner and two thieves tie on it"),
-        leg("deque-2thieves", "c01_deque", (2, 3), {"owner": "SSGG", "thieves": 2, "steals": 2}, what="two thieves contend for the pool lock"),
-        leg("deque-compact", "c01_deque", (3, 4), {"owner": "SSSSSSG", "prefill": 60, "presteal": 50, "thieves": 1, "steals": 2}, what="spawn compacts the pool in place while a thief is active"),
-        leg("deque-grow", "c01_deque", (3, 4), {"owner": "SSG", "prefill": 63, "presteal": 1, "thieves": 1, "steals": 2}, what="spawn grows (relocates) the pool while a thief is active"),
-        leg("deque-empty", "c01_deque", (3, 4), {"owner": "GSG", "prefill": 1, "thieves": 1, "steals": 2}, what="pop of the last task vs steal, then respawn"),
+        leg("deque-basic", "c01_deque", (4, 6), {"owner": "SSGSGG", "thieves": 1, "steals": 2}, what="owner spawn/pop vs one thief"),
+        leg("deque-tie", "c01_deque", (4, 6), {"owner": "SG", "thieves": 2, "steals": 1}, what="one task: owner and two thieves tie on it"),
+        leg("deque-2thieves", "c01_deque", (3, 4), {"owner": "SSGG", "thieves": 2, "steals": 2}, what="two thieves contend for the pool lock"),
+        leg("deque-compact", "c01_deque", (4, 6), {"owner": "SSSSSSG", "prefill": 60, "presteal": 50, "thieves": 1, "steals": 2}, what="spawn compacts the pool in place while a thief is active"),
+        leg("deque-grow", "c01_deque", (4, 6), {"owner": "SSG", "prefill": 63, "presteal": 1, "thieves": 1, "steals": 2}, what="spawn grows (relocates) the pool while a thief is active"),
+        leg("deque-empty", "c01_deque", (4, 6), {"owner": "GSG", "prefill": 1, "thieves": 1, "steals": 2}, what="pop of the last task vs steal, then respawn"),
     ]
     L.append(leg("deque-seq7q", "c01_deqseq", (0, 0), {"depth": 7}, flags=(), what="single thread, every sequence of length 1..7 over {spawn with isolation tag 0/1/2, get_task with isolation 0/1/2, steal_task with isolation 0/1} on one real arena_slot: skipped tasks, holes, restored bounds; nothing lost / handed out twice / handed to a non-matching taker, nothing refused while a matching task is in the pool", tiers=("quick",)))
     L.append(leg("deque-seq8", "c01_deqseq", (0, 0), {"depth": 8}, flags=(), what="same, every sequence of length 1..8", tiers=("thorough",), weight=2.0))
@@ -441,7 +441,7 @@ def _c01():
     L.append(leg("deque-seq6-pre", "c01_deqseq", (0, 0), {"depth": 6, "pre": 6}, flags=(), what="same sequences on a pool that already holds three untagged tasks and has an advanced head"))
     for name, prm in [("tie", {"owner": "SG", "thieves": 2, "steals": 1}), ("basic", {"owner": "SSGSGG", "thieves": 1, "steals": 2}), ("compact", {"owner": "SSSSSSG", "prefill": 60, "presteal": 50, "thieves": 1, "steals": 2}),
                       ("grow", {"owner": "SSG", "prefill": 63, "presteal": 1, "thieves": 1, "steals": 2}), ("empty", {"owner": "GSG", "prefill": 1, "thieves": 1, "steals": 2})]:
-        L.append(leg("deque-%s-tso" % name, "c01_deque@tso", (2, 3), prm, flags=("-fp", "-tso"), what="same under x86-TSO store buffers: a non-seq_cst store may stay invisible while other threads run (owner --tail / thief ++head write-read ordering)"))
+        L.append(leg("deque-%s-tso" % name, "c01_deque@tso", (3, 4), prm, flags=("-fp", "-tso"), what="same under x86-TSO store buffers: a non-seq_cst store may stay invisible while other threads run (owner --tail / thief ++head write-read ordering)"))
     one_worker = [("tg", "task_group run/run/wait"), ("nested", "a body runs a further body into the group during the wait"), ("tree", "three-level chain of run()s"),
                   ("run_and_wait", "run_and_wait whose body runs more work"), ("handle", "task_handle / defer"), ("two_groups", "nested groups"),
                   ("pfor", "parallel_for over 4 elements, simple_partitioner (wait tree of fold_tree)"), ("pfor_auto", "parallel_for(0,5) auto_partitioner"),
